@@ -43,7 +43,10 @@ struct checker {
         h = verif::mix(h, req.empty() ? 0 : req[0]); h = verif::mix(h, rsp.empty() ? 0 : rsp[0]);
         h = verif::mix(h, rsp.size() == 5 && rsp[0] == 1 ? rsp[4] : 0);
         h = verif::mix(h, s.conn[k].encrypted * 4 + s.conn[k].pair); h = verif::mix(h, std::min<std::size_t>(req.size(), 24)); h = verif::mix(h, extra);
-        verif::mon(prop).nontrivial(h);
+        verif::monitor& M = verif::mon(prop);
+        M.nontrivial(h);
+        // a few actual cases written out (spread over the run: every 97th distinct case)
+        if (M.samples.size() < 4 && M.distinct.size() % 97 == 1) M.sample(ctx(k, req, rsp), 4);
     }
 
     // ------------------------------------------------------------------ framing (C01)
